@@ -90,3 +90,20 @@ Lemma stale_nonvac :
   confreq_content 1 (hlog (step default_cfg Repaired f stale)) <>
   confreq_content 1 (hlog (step default_cfg Repaired f (EInput 4 2 CGood [3; 5; 194; 35; 5]))).
 Proof. vm_compute. repeat split; try reflexivity. discriminate. Qed.
+
+(* ------------------------------------------------------------ 12. Restore / Kill (outside the event set) *)
+
+Lemma restore_kill_silent f :
+  outs (restore f) = [] /\ st (restore f) = Opened /\ armed (restore f) = false /\
+  restart (restore f) = 0 /\ hlog (restore f) = hlog f /\ lastReq (restore f) = lastReq f /\
+  outs (kill f) = [] /\ st (kill f) = Closed /\ armed (kill f) = false /\ hlog (kill f) = hlog f.
+Proof. repeat split; reflexivity. Qed.
+
+(* observation: a restored session renegotiates with no retransmission budget, and Kill leaves an
+   outstanding This-Layer-Up without This-Layer-Down *)
+Lemma restore_kill_observations :
+  (let f := step default_cfg Repaired (restore init) (EInput 1 7 CGood []) in
+   st f = AckSent /\ restart f = 0 /\ st (step default_cfg Repaired f ETimeout) = Stopped) /\
+  (let f := run default_cfg Repaired init [EOpen; EUp; EInput 1 7 CGood []; EInput 2 1 CGood []] in
+   st f = Opened /\ st (kill f) = Closed /\ outs (kill f) = []).
+Proof. vm_compute. repeat split; reflexivity. Qed.
